@@ -3,9 +3,130 @@ import ShelxModel.C18
 open Lean Shelx.J
 
 namespace Shelx.Drv.C18
+open Shelx.C18
+
+/-- an exact rational sent as `[numerator, denominator]` (arbitrary-precision JSON integers or strings) -/
+def bigInt (j : Json) : Except String Int :=
+  match j with
+  | .str s => match s.toInt? with
+    | some i => .ok i
+    | none => .error s!"expected integer string, got {s}"
+  | _ => int j
+
+def ratPair (j : Json) : Except String Rat := do
+  match ← arr j with
+  | [n, d] =>
+    let n ← bigInt n
+    let d ← bigInt d
+    if d ≤ 0 then err "denominator" else return mkRat n d.toNat
+  | _ => err "expected [num, den]"
+
+def optStr (o : Option (List Char)) : Json :=
+  match o with
+  | none => Json.null
+  | some s => Json.str (String.ofList s)
+
+def compJson (c : Comp) : Json :=
+  Json.mkObj [("c", ofInts [c.cx, c.cy, c.cz]), ("t", ofRat c.t)]
+
+def optOp (o : Option Op) : Json :=
+  match o with
+  | none => Json.null
+  | some op => Json.arr #[compJson op.r1, compJson op.r2, compJson op.r3]
+
+def compOf (row : Json) (t : Json) : Except String Comp := do
+  match ← ints row with
+  | [a, b, c] => return ⟨a, b, c, ← ratPair t⟩
+  | _ => err "row: expected three integers"
+
+def valJson : Val → Json
+  | .num r => ofRat r
+  | .str s => Json.str s
+  | .unknown => Json.null
+
+def errName : PyErr → String
+  | .AttributeError => "AttributeError"
+  | .IndexError => "IndexError"
+  | .KeyError => "KeyError"
+  | .TypeError => "TypeError"
+
+def items (l : List (String × Val)) : Json := Json.mkObj (l.map fun (k, v) => (k, valJson v))
+
+def optRat (j : Json) (k : String) : Except String (Option Rat) :=
+  match fieldOpt j k with
+  | none => pure none
+  | some v => do return some (← rat v)
+
+def srcOf (j : Json) : Except String Src := do
+  let cell ← field j "cell" >>= rats
+  match cell with
+  | [wl, a, b, c, al, be, ga] =>
+    let size ← match fieldOpt j "size" with
+      | none => pure none
+      | some v => do
+        match ← rats v with
+        | [x, y, z] => pure (some (⟨x, y, z⟩ : Size))
+        | _ => err "size: expected three numbers"
+    return { titl := ← field j "titl" >>= strs, sumFormula := ← strField j "sum_formula", formulaWeight := 0,
+             wavelength := wl, a := a, b := b, c := c, alpha := al, beta := be, gamma := ga, volume := 0,
+             zerr := ← optRat j "zerr", temp := ← optRat j "temp", size := size,
+             r1 := ← optRat j "r1", wr2 := ← optRat j "wr2", goof := ← optRat j "goof",
+             spaceGroup := match fieldOpt j "space_group" with | some (.str s) => some s | _ => none }
+  | _ => err "cell: expected seven numbers"
+
+def atomOf (j : Json) : Except String AtomS := do
+  let xyz ← field j "xyz" >>= rats
+  let u ← field j "u" >>= rats
+  match xyz, u with
+  | [x, y, z], [u11, u22, u33, u23, u13, u12] =>
+    return { name := ← strField j "name", resinum := ← intField j "resi", element := ← strField j "el",
+             x := x, y := y, z := z, u11 := u11, u22 := u22, u33 := u33, u23 := u23, u13 := u13, u12 := u12,
+             occ := ← ratField j "occ", part := ← intField j "part", qpeak := ← boolField j "q" }
+  | _, _ => err "atom: xyz needs 3 and u 6 numbers"
+
+def rowJson (r : Row) : Json :=
+  Json.mkObj [("label", Json.str r.label), ("el", Json.str r.element), ("xyz", ofRats [r.x, r.y, r.z]),
+              ("aniso", Json.bool r.aniso), ("occ", ofRat r.occ), ("part", ofInt r.part)]
+
+def adpJson (r : AdpRow) : Json := Json.mkObj [("label", Json.str r.label), ("u", ofRats r.u)]
 
 def handle (j : Json) : Except String Json := do
   let op ← strField j "op"
-  err s!"C18: unknown op {op}"
+  match op with
+  | "symop" =>
+    -- rows: 3x3 integers, trans: three exact values of the doubles, tstr: Python's str() of them,
+    -- impl: the string the implementation wrote for this operator
+    let rows ← arrField j "rows"
+    let trans ← arrField j "trans"
+    let tstr ← field j "tstr" >>= strs
+    match rows, trans, tstr with
+    | [r1, r2, r3], [t1, t2, t3], [s1, s2, s3] =>
+      let o : Op := ⟨← compOf r1 t1, ← compOf r2 t2, ← compOf r3 t3⟩
+      let text := toCif (s1.toList, s2.toList, s3.toList) o
+      let impl ← strField j "impl"
+      return Json.mkObj [("model", optStr text), ("model_denotes", optOp (text.bind denoteCif)),
+                         ("impl_denotes", optOp (denoteCif impl.toList)),
+                         ("mode", ofNat Shelx.Extracted.C18.opMode)]
+    | _, _, _ => err "symop: need three rows, translations and strings"
+  | "denote" =>
+    let s ← strField j "s"
+    return Json.mkObj [("spec", optOp (denoteCif s.toList))]
+  | "values" =>
+    let s ← srcOf j
+    let model := match cifItems s with
+      | .ok l => items l
+      | .error e => Json.mkObj [("raise", Json.str (errName e))]
+    return Json.mkObj [("model", model), ("spec", items (specItems s)), ("temp_k", ofRat (tempKOf s.temp))]
+  | "loops" =>
+    let atoms ← (← arrField j "atoms").mapM atomOf
+    return Json.mkObj [("model_atoms", Json.arr ((atomLoop atoms).map rowJson).toArray),
+                       ("model_adp", Json.arr ((adpLoop atoms).map adpJson).toArray),
+                       ("spec_atoms", Json.arr ((specAtomLoop atoms).map rowJson).toArray),
+                       ("spec_adp", Json.arr ((specAdpLoop atoms).map adpJson).toArray)]
+  | "repr" =>
+    return Json.arr (reprTable.map fun (k, s) => Json.arr #[ofInt k, Json.str s]).toArray
+  | "doubles" =>
+    return Json.arr (doubleTable.map fun (k, n, d) => Json.arr #[ofInt k, Json.str (toString n), Json.str (toString d)]).toArray
+  | _ => err s!"C18: unknown op {op}"
 
 end Shelx.Drv.C18
